@@ -6,8 +6,10 @@ ENUM: every entry of the default function tables of FormulaGrader / NumericalGra
 `evaluator('f(a, b, ...)', variables, functions)` on every point of fixed finite grids, and compared with
 the textbook definition written in mcv/refs/c15_ref.py (cmath/math/itertools only).
 
-Cases are JSON: numbers are ['r', x] (real-typed python float) or ['c', re, im] (complex-typed);
-arrays are ['A', shape, re_flat, im_flat_or_None].
+Cases are JSON: numbers are ['r', x] (real-typed python float) or ['c', re, im] (complex-typed) or
+['n', 'i64', x, 0] (handed to the library as np.int64: arrives at the function as a python int);
+arrays are ['A', shape, re_flat, im_flat_or_None] (float / complex dtype), ['I', shape, ints] (integer dtype),
+['Z', re, im_or_None] (0-d array).
 """
 import math
 import itertools
@@ -25,7 +27,12 @@ RULE = ('every (table, function, argument tuple) of each family is enumerated fr
         'signed zeros; pairs/triples of a 9-value grid for arctan2/kronecker/min/max; all small matrices/vectors '
         'over small palettes; every wrong arity 0..4 and every wrong-shape specimen.  A case is non-trivial when '
         'the oracle pins the outcome down (a definite value / identity, or a mandatory error); cases where the '
-        'statement leaves the outcome open (error OR value) count as trivial unless a value was returned and checked')
+        'statement leaves the outcome open (error OR value) count as trivial unless a value was returned and checked.  '
+        'Further dimensions, each with a small exhaustive space of its own: the TYPE of a number (python int), the '
+        'DTYPE of an array (integer, complex with real entries; the arrays the library ships), extreme magnitudes in '
+        'pairs and inside arrays, neighbours of every boundary in the last bit, sizes beyond the enumerated ones, '
+        'more than four arguments, the tables of further graders (NumericalGrader, graders with user entries), '
+        'arrays typed as literals and graded by a real MatrixGrader')
 EXPLANATION = ('states = distinct (table, function, arguments) cases; transitions = executions of the real evaluator '
                '(or of a real NumericalGrader) -- every case runs the implementation')
 ASSUMPTIONS = [
@@ -44,6 +51,12 @@ ASSUMPTIONS = [
     'a one-element array [x] / [[x]] given to a scalar function: a student-facing error or the NUMBER f(x); a number '
     'given to trans/ctrans/adj: the number (its conjugate) or a student-facing error',
     'numpy scalar types (np.float64) are accepted as numbers; ndarrays (also 0-d) are not',
+    'the conditioning allowance of the identity f(w)=z is capped at 1e-3*|z| + 1e-12, so that a w next to a pole of f '
+    '(where |f\'| is astronomically large) is not accepted for every z; beyond the cap the cmath comparison decides',
+    'the evaluator turns numpy scalars into builtin numbers before a function sees them: the argument types that '
+    'exist are python float, complex, int and MathArray',
+    'norm / abs of arrays with entries of magnitude 1e+-150 are compared relatively (1e-9); entries whose SQUARE is '
+    'not representable (1e+-200, subnormals) are a pending finding and skipped (see ArrayMagnitudes)',
     'fact/factorial excluded (scipy unavailable)',
     'exact exception subclass is left free: any StudentFacingError counts as a student-facing error',
     'a finite grid: nothing is claimed between grid points',
@@ -87,12 +100,34 @@ def _nest(flatvals, shape):
     return [_nest(flatvals[i * step:(i + 1) * step], shape[1:]) for i in range(shape[0])]
 
 
+def NP(kind, x, y=0.0):
+    """a number handed to the library as a numpy scalar: kind in 'f64' (np.float64), 'i64' (np.int64), 'c128'"""
+    return ['n', kind, float(x), float(y)]
+
+
+def Z0(x):
+    """the 0-d array MathArray(x)"""
+    x = complex(x)
+    return ['Z', x.real, x.imag] if x.imag != 0 else ['Z', x.real, None]
+
+
+def enc_int_arr(nested):
+    """an array handed to the library with an INTEGER dtype (as an author writes MathArray([[1, 2], [3, 4]]))"""
+    return ['I', list(ref.shape_of(nested)), [int(x) for x in ref.flat(nested)]]
+
+
 def dec(e):
-    """encoded argument -> python value (float / complex / nested list)"""
+    """encoded argument -> python value (float / complex / nested list): the mathematical value of the argument"""
     if e[0] == 'r':
         return float(e[1])
     if e[0] == 'c':
         return complex(e[1], e[2])
+    if e[0] == 'n':
+        return complex(e[2], e[3]) if e[1] == 'c128' else float(e[2])
+    if e[0] == 'Z':
+        return float(e[1]) if e[2] is None else complex(e[1], e[2])
+    if e[0] == 'I':
+        return _nest([int(x) for x in e[2]], list(e[1]))
     _, shape, re_, im_ = e
     vals = [float(x) for x in re_] if im_ is None else [complex(a, b) for a, b in zip(re_, im_)]
     return _nest(vals, list(shape))
@@ -103,7 +138,7 @@ def show(e):
     return repr(v)
 
 
-NAMES = 'abcd'
+NAMES = 'abcdfghkmnpq'      # one letter per argument (e, i, j are constants of the library: not used)
 
 
 class Env(object):
@@ -117,14 +152,39 @@ class Env(object):
         self.MathArray = MathArray
         self.SFE = StudentFacingError
         self.NumericalGrader = NumericalGrader
+        self.MatrixGrader = MatrixGrader
         self.graders = {'formula': FormulaGrader(answers='1'),
                         'numerical': NumericalGrader(answers='1'),
-                        'matrix': MatrixGrader(answers='1')}
+                        'matrix': MatrixGrader(answers='1'),
+                        # the same default tables reached through graders that are configured with options
+                        # of their own (the defaults must survive the merge with the author's entries)
+                        'formula+user': FormulaGrader(answers='1', variables=['x'],
+                                                      user_functions={'usrf': lambda x: x * x},
+                                                      user_constants={'usrc': 2.0}),
+                        'matrix+user': MatrixGrader(answers='1', max_array_dim=2, variables=['x'],
+                                                    user_functions={'usrf': lambda x: x * x},
+                                                    user_constants=self.shipped_constants(usrc=2.0))}
         self.functions = {k: g.functions for k, g in self.graders.items()}
         self.constants = {k: g.constants for k, g in self.graders.items()}
 
+    @staticmethod
+    def shipped_constants(**more):
+        """the constant sets that the library ships for authors: Pauli matrices (integer / complex dtype) and the
+        cartesian unit vectors (integer dtype)"""
+        from mitxgraders.helpers.calc import mathfuncs
+        out = dict(more)
+        out.update(mathfuncs.pauli)
+        out.update(mathfuncs.cartesian_xyz)
+        return out
+
     def to_lib(self, e):
         v = dec(e)
+        if e[0] == 'n':
+            return {'f64': np.float64, 'i64': lambda x: np.int64(int(x)), 'c128': np.complex128}[e[1]](v)
+        if e[0] == 'Z':
+            return self.MathArray(v)            # 0-d array
+        if e[0] == 'I':
+            return self.MathArray(np.array(v, dtype=np.int64))
         if isinstance(v, list):
             return self.MathArray(v)
         return v
@@ -144,6 +204,16 @@ class Env(object):
                 out = ('err', e)
         bad = [w for w in wl if issubclass(w.category, RuntimeWarning)]
         return out, bad
+
+
+_ENV = []
+
+
+def shared_env():
+    """one Env per worker process (the handles are read-only: tables of functions and constants, classes)"""
+    if not _ENV:
+        _ENV.append(Env())
+    return _ENV[0]
 
 
 def errname(e):
@@ -320,6 +390,9 @@ def scalar_points(tier):
 
 
 G9 = [-10.0, -2.0, -1.0, -0.3, 0.0, 0.3, 1.0, 2.0, 10.0]
+ARCTAN2_EXTREME = [0.0, 1.0, -1.0, 5e-324, -5e-324, 1e-320, -1e-320, 1e-200, 1e200, -1e200, 1e308, -1e308]
+UP1 = math.nextafter(1.0, 2.0)
+DOWN1 = math.nextafter(1.0, 0.0)
 G15 = [-1e8, -10.0, -2.0, -1.0, -0.3, -1e-8, 0.0, 1e-8, 0.3, 1.0, 1.0000001, 2.0, 3.0, 10.0, 1e8]
 
 
@@ -329,7 +402,7 @@ class C15Family(Family):
     timeout = 20.0
 
     def setup(self, tier):
-        self.env = Env()
+        self.env = shared_env()
 
     def describe(self, case):
         return {'table': case[0], 'call': '%s(%s)' % (case[1], ', '.join(show(a) for a in case[2]))}
@@ -338,30 +411,96 @@ class C15Family(Family):
 class TablesAndConstants(C15Family):
     name = 'tables_and_constants'
     rule = ('for each of the three grader tables: every documented function name is present and callable, the four '
-            'constants i, j, e, pi have their standard values, and 20 constant identities (e^(i*pi) = -1, '
-            'ln(e) = 1, 4*arctan(1) = pi, arctan2(-1, 0) = pi ...) evaluate to their exact textbook value; '
+            'constants i, j, e, pi have their standard values, and 58 constant identities (e^(i*pi) = -1, '
+            'ln(e) = 1, 4*arctan(1) = pi, arctan2(-1, 0) = pi ..., nested calls f(g(x)) whose inner result is a '
+            'numpy scalar or a python int, and -- matrix tables -- 30 identities on arrays typed as literals) '
+            'evaluate to their exact textbook value; the tables are those of default graders and of graders '
+            'configured with user functions / constants; no table has an entry beyond the documented defaults; '
             'non-trivial = all')
     IDENTITIES = [('i*i', -1), ('j*j', -1), ('i-j', 0), ('e^(i*pi)', -1), ('ln(e)', 1), ('exp(1)-e', 0),
                   ('cos(pi)', -1), ('sin(pi/2)', 1), ('arccos(-1)-pi', 0), ('2*arcsin(1)-pi', 0),
                   ('4*arctan(1)-pi', 0), ('arctan2(-1, 0)-pi', 0), ('arctan2(0, 1)-pi/2', 0), ('log10(1000)', 3),
                   ('log2(8)', 3), ('sqrt(-1)-i', 0), ('abs(i)', 1), ('im(i)', 1), ('re(j)', 0), ('conj(i)+i', 0),
-                  ('ln(-1)-i*pi', 0), ('pi', math.pi), ('e', math.e), ('2*pi*i', complex(0, 2 * math.pi))]
+                  ('ln(-1)-i*pi', 0), ('pi', math.pi), ('e', math.e), ('2*pi*i', complex(0, 2 * math.pi)),
+                  # nested calls: the inner call hands a numpy scalar (np.float64 / np.complex128) or a python int
+                  # (kronecker) to the outer function
+                  ('sin(arcsin(0.5))', 0.5), ('exp(ln(2))', 2), ('sqrt(abs(-4))', 2), ('ceil(sqrt(2))', 2),
+                  ('arctan2(cos(2), sin(2))', 2), ('arctan2(sin(2), cos(2))', math.pi / 2 - 2),
+                  ('kronecker(floor(2.5), 2)', 1), ('kronecker(ceil(2.5), 2)', 0), ('max(kronecker(1, 1), 0.5)', 1),
+                  ('min(kronecker(1, 2), 0.5)', 0), ('min(re(2+3*i), im(2+3*i))', 2), ('max(abs(-3), sqrt(4), 1)', 3),
+                  ('conj(exp(i*pi/2))+i', 0), ('sqrt(kronecker(1, 1))', 1), ('ln(kronecker(2, 2))', 0),
+                  ('arccos(kronecker(1, 2))-pi/2', 0), ('floor(-kronecker(1, 1)/2)', -1), ('sqrt(-kronecker(3, 3))-i', 0),
+                  ('arcsec(sec(1))', 1), ('arccsc(csc(1))', 1), ('tan(arccot(2))', 0.5), ('cosh(arccosh(2))', 2),
+                  ('sinh(arcsinh(-3))', -3), ('tanh(arctanh(0.5))', 0.5), ('sech(arcsech(0.5))', 0.5),
+                  ('csch(arccsch(2))', 2), ('coth(arccoth(2))', 2), ('log2(exp(ln(8)))', 3), ('log10(sqrt(100))', 1),
+                  ('abs(conj(3+4*i))', 5), ('re(sqrt(-4))', 0), ('im(sqrt(-4))', 2), ('floor(im(ln(-1)))', 3),
+                  ('arctan2(re(-1+0*i), im(-1+0*i))', math.pi)]
+    # identities that need the matrix table; arrays typed by the student (evaluated by the parser's array builder)
+    MATRIX_IDENTITIES = [('det([[1,2],[3,4]])', -2), ('trace([[1,2],[3,4]])', 5), ('norm([3,4])', 5), ('abs([3,-4])', 5),
+                         ('norm([[1,2],[2,4]])', 5), ('abs([3*i,-4])', 5), ('norm(cross([1,0,0],[0,1,0])-[0,0,1])', 0),
+                         ('norm(cross([0,1,0],[1,0,0])+[0,0,1])', 0), ('norm(cross([1,2,3],[4,5,6])-[-3,6,-3])', 0),
+                         ('norm(trans([[1,2],[3,4]])-[[1,3],[2,4]])', 0),
+                         ('norm(trans([[1,2,3],[4,5,6]])-[[1,4],[2,5],[3,6]])', 0),
+                         ('norm(ctrans([[i,2],[3,4]])-[[-i,3],[2,4]])', 0), ('norm(adj([[i,2],[3,4]])-[[-i,3],[2,4]])', 0),
+                         ('sqrt(det([[4,0],[0,1]]))', 2), ('re(det([[i,0],[0,i]]))', -1), ('det([[i,0],[0,1]])-i', 0),
+                         ('trace([[i,0],[0,i]])-2*i', 0), ('norm(re([1+i,2*i])-[1,0])', 0),
+                         ('norm(im([1+i,2*i])-[1,2])', 0), ('norm(conj([1+i,2*i])-[1-i,-2*i])', 0),
+                         ('det([[2,0,1],[1,3,2],[1,1,1]])', 0), ('det([[2,0,0],[0,3,0],[0,0,4]])', 24),
+                         ('trace([[2,0,1],[1,3,2],[1,1,1]])', 6), ('arctan2(trace([[1,0],[0,-2]]), norm([0,1]))', 3 * math.pi / 4),
+                         ('kronecker(det([[1,0],[0,1]]), trace([[1,0],[0,0]]))', 1), ('max(norm([3,4]), abs(-6), 2)', 6),
+                         ('norm(trans(trans([[1,2],[3,4]]))-[[1,2],[3,4]])', 0), ('det(trans([[1,2],[3,4]]))', -2),
+                         ('norm(ctrans([[1,2,3],[4,5,6*i]]))', math.sqrt(91)), ('abs(cross([1,0,0],[0,2,0]))', 2)]
+    # the arrays that the library itself ships for authors (integer dtype unit vectors, integer / complex Pauli
+    # matrices), as constants of a MatrixGrader
+    SHIPPED_IDENTITIES = [('det(sigma_y)', -1), ('det(sigma_x)', -1), ('trace(sigma_z)', 0), ('norm(sigma_x)', math.sqrt(2)),
+                          ('norm(sigma_y)', math.sqrt(2)), ('norm(cross(hatx, haty)-hatz)', 0),
+                          ('norm(cross(haty, hatx)+hatz)', 0),
+                          ('norm(cross(hatx, [0.5, 0.25, 0.125])-[0, -0.125, 0.25])', 0),
+                          ('norm(cross([0.5, 0.25, 0.125], hatz)-[0.25, -0.5, 0])', 0),
+                          ('norm(cross(hatz, [i, 0.5, 0])-[-0.5, i, 0])', 0),
+                          ('norm(ctrans(sigma_y)-sigma_y)', 0), ('norm(trans(sigma_y)+sigma_y)', 0),
+                          ('norm(conj(sigma_y)+sigma_y)', 0), ('norm(im(sigma_y)-[[0,-1],[1,0]])', 0),
+                          ('norm(re(sigma_y))', 0), ('abs(haty)', 1), ('abs(hatx+2*haty-2*hatz)', 3),
+                          ('sqrt(trace(sigma_x*sigma_x))', math.sqrt(2)), ('arcsec(trace(sigma_z*sigma_z))', math.pi / 3),
+                          ('arccsc(trace(sigma_z*sigma_z))', math.pi / 6), ('arccot(trace(sigma_x*sigma_x)/2)', math.pi / 4),
+                          ('arccoth(trace(sigma_z*sigma_z))', math.atanh(0.5)), ('arcsech(1/trace(sigma_z*sigma_z))', math.acosh(2)),
+                          ('arccsch(trace(sigma_z*sigma_z))', math.asinh(0.5)),
+                          ('kronecker(trace(sigma_z*sigma_z), 2)', 1), ('max(trace(sigma_z), det(sigma_z), 0.5)', 0.5),
+                          ('arctan2(trace(sigma_z*sigma_z), trace(sigma_x*sigma_x))', math.pi / 4)]
+    TABLES = ('formula', 'numerical', 'matrix', 'formula+user', 'matrix+user')
+
+    def identity(self, table, k):
+        if k < len(self.IDENTITIES):
+            return self.IDENTITIES[k]
+        k -= len(self.IDENTITIES)
+        if k < len(self.MATRIX_IDENTITIES):
+            return self.MATRIX_IDENTITIES[k]
+        return self.SHIPPED_IDENTITIES[k - len(self.MATRIX_IDENTITIES)]
 
     def cases(self, tier):
-        for table in ('formula', 'numerical', 'matrix'):
+        for table in self.TABLES:
             names = list(ref.DOCUMENTED_FORMULA)
-            if table == 'matrix':
+            if table.startswith('matrix'):
                 names += [n for n in ref.DOCUMENTED_MATRIX_EXTRA if n not in names]
             for n in names:
                 yield ('has', table, n)
             for c in sorted(ref.DOCUMENTED_CONSTANTS):
                 yield ('const', table, c)
-            for k in range(len(self.IDENTITIES)):
+                if table in ('formula', 'numerical', 'matrix'):
+                    yield ('const-graded', table, c)        # the constant as a student's whole answer, graded
+            nid = len(self.IDENTITIES) + (len(self.MATRIX_IDENTITIES) if table.startswith('matrix') else 0)
+            if table == 'matrix+user':
+                nid += len(self.SHIPPED_IDENTITIES)
+            for k in range(nid):
                 yield ('ident', table, k)
+            # every ENTRY of the table is a documented one (an entry without a definition has no oracle)
+            yield ('extra-functions', table, '')
+            yield ('extra-constants', table, '')
 
     def describe(self, case):
         if case[0] == 'ident':
-            return {'table': case[1], 'formula': self.IDENTITIES[case[2]][0], 'expected': self.IDENTITIES[case[2]][1]}
+            f, want = self.identity(case[1], case[2])
+            return {'table': case[1], 'formula': f, 'expected': want}
         return case
 
     def check(self, case):
@@ -383,7 +522,41 @@ class TablesAndConstants(C15Family):
                                                          'constant %s of the %s grader is %r' % (x, table, got),
                                                          want, got))
             return Result('const-ok', True, None, 0)
-        formula, want = self.IDENTITIES[x]
+        if kind == 'const-graded':
+            want = complex(ref.DOCUMENTED_CONSTANTS[x])
+            cls = type(env.graders[table])
+            verdicts = []
+            for answer in (want, want * 1.0001):
+                try:
+                    g = cls(answers=lit_num(answer), tolerance=1e-12)
+                    verdicts.append(g(None, x)['ok'])
+                except Exception as e:      # noqa
+                    verdicts.append('%s: %s' % (errname(e), e))
+            if verdicts != [True, False]:
+                return Result('constant-misgraded', True,
+                              viol('constant:%s:graded-wrongly' % x,
+                                   'a %s with answer = the standard value of %s / that value moved by 0.01%% grades the '
+                                   'input %r as %r' % (cls.__name__, x, x, verdicts), [True, False], verdicts), 2)
+            return Result('const-graded', True, None, 2)
+        if kind in ('extra-functions', 'extra-constants'):
+            if kind == 'extra-functions':
+                documented = set(ref.DOCUMENTED_FORMULA) | {'usrf'}
+                if table.startswith('matrix'):
+                    documented |= set(ref.DOCUMENTED_MATRIX_EXTRA)
+                have = set(env.functions[table])
+            else:
+                documented = set(ref.DOCUMENTED_CONSTANTS) | {'usrc'}
+                if table == 'matrix+user':
+                    documented |= set(env.shipped_constants())
+                have = set(env.constants[table])
+            extra = sorted(have - documented)
+            if extra:
+                return Result('undocumented-entry', True,
+                              viol('table:%s:%s' % (kind, ','.join(extra)),
+                                   'the %s table has entries %r that are not documented defaults: no textbook '
+                                   'definition to check them against' % (table, extra), sorted(documented), extra), 0)
+            return Result('no-extra-entries', True, None, 0)
+        formula, want = self.identity(table, x)
         out, bad = env.run(formula, env.constants[table], env.functions[table])
         exp = ref.Expectation('value', lambda v: None if abs(complex(v) - complex(want)) <= 1e-12 else
                               '%s evaluates to %r, not %r' % (formula, v, want))
@@ -496,7 +669,8 @@ class NumericalGraderEndToEnd(C15Family):
 class Arctan2Family(C15Family):
     name = 'arctan2_pairs'
     rule = ('arctan2(x, y) on all ordered pairs of the 9-value grid (15-value in thorough) real-typed, plus pairs '
-            'with signed zeros and complex-typed pairs; the documented (x, y) order is separated by every '
+            'with signed zeros, complex-typed pairs and all pairs of a 12-value grid of extreme magnitudes '
+            '(0, +-1, +-5e-324, +-1e-320, 1e-200, +-1e200, +-1e308); the documented (x, y) order is separated by every '
             'asymmetric pair; non-trivial = x != y or a mandatory error')
 
     def cases(self, tier):
@@ -509,6 +683,12 @@ class Arctan2Family(C15Family):
                 yield (table, 'arctan2', [R(x), R(y)])
             for x, y in ((C(1, 0), R(1)), (R(1), C(-1, 0)), (C(1, 1), R(1)), (R(2), C(0, 1)), (C(0, 0), C(0, 0))):
                 yield (table, 'arctan2', [x, y])
+            # huge / tiny / subnormal coordinates: the quotient y/x over- or underflows although the angle is ordinary
+            for x in ARCTAN2_EXTREME:
+                for y in ARCTAN2_EXTREME:
+                    if abs(x) in (0.0, 1.0) and abs(y) in (0.0, 1.0):
+                        continue
+                    yield (table, 'arctan2', [R(x), R(y)])
 
     def check(self, case):
         table, fname, args = case
@@ -549,14 +729,24 @@ class Arctan2Family(C15Family):
 class KroneckerFamily(C15Family):
     name = 'kronecker_pairs'
     rule = ('kronecker(x, y) on all ordered pairs of the 9-value grid extended by complex values, nearly-equal '
-            'floats and 0/-0; 1 exactly when the two numbers are equal; non-trivial = all')
+            'floats and 0/-0, and on all ordered pairs of a 20-value grid of neighbours (1, 1 +- one ulp, 1+1e-15, '
+            '1+1e-13, 0, 5e-324, +-1e-320, 1e300 and its successor, +-1e308, complex huge); 1 exactly when the two '
+            'numbers are equal; non-trivial = all')
 
     def cases(self, tier):
         vals = [R(v) for v in (G9 if tier == 'quick' else G15)] + [R(-0.0), R(1 + 1e-12), R(3.0), C(1, 0), C(0, 1),
                                                                   C(0, -1), C(1, 1), C(1, 1e-12), C(-2, 0)]
+        # distinct numbers at every distance down to one unit in the last place, subnormals, huge values whose
+        # difference overflows
+        fine = [R(1.0), R(UP1), R(DOWN1), R(1 + 1e-15), R(1 + 1e-13), R(0.0), R(5e-324), R(1e-320), R(-1e-320),
+                R(1e-300), R(1e300), R(math.nextafter(1e300, math.inf)), R(1e308), R(-1e308), R(100000.0), R(100001.0),
+                C(1e308, 1e308), C(1e308, -1e308), C(1.0, 5e-324), C(1.0, 0.0)]
         for table in ('formula', 'matrix'):
             for a in vals:
                 for b in vals:
+                    yield (table, 'kronecker', [a, b])
+            for a in fine:
+                for b in fine:
                     yield (table, 'kronecker', [a, b])
 
     def check(self, case):
@@ -569,11 +759,27 @@ class KroneckerFamily(C15Family):
         return judge_scalar(self.env, fname, out, bad, exp, 'binary', ztype_of(args))
 
 
+MINMAX_EXTREME = [1e308, -1e308, 1e-320, -1e-320, 0.0, 5e-324, 1.0, UP1]
+
+
+def _rotations(t):
+    return [t[k:] + t[:k] for k in range(len(t))]
+
+
+# more arguments than the exhaustive bound: the extremum in every position of a 5- and a 6-tuple, ties, 8 and 12 arguments
+MINMAX_LONG = (_rotations((1.0, 2.0, 3.0, 4.0, 5.0)) + _rotations((5.0, 4.0, 3.0, 2.0, 1.0)) +
+               _rotations((-1.0, 0.3, 2.0, -10.0, 10.0, 0.0)) +
+               [(3.0, 1.0, 1.0, 3.0, 2.0), (2.0, 2.0, 2.0, 2.0, 1.0), (2.0, 2.0, 2.0, 2.0, 3.0),
+                (8.0, 7.0, 6.0, 5.0, 4.0, 3.0, 2.0, 1.0), (1.0, 2.0, 3.0, 4.0, 5.0, 6.0, 7.0, 8.0),
+                tuple(float((7 * k) % 12) for k in range(12))])
+
+
 class MinMaxFamily(C15Family):
     name = 'min_max_tuples'
     rule = ('min and max on all ordered pairs and triples of the 9-value grid (thorough: 15-value grid, plus all '
-            '4-tuples of a 5-value grid), plus tuples containing complex-typed numbers; non-trivial = not all '
-            'arguments equal')
+            '4-tuples of a 5-value grid), plus tuples containing complex-typed numbers, all pairs of an 8-value grid '
+            'of extreme magnitudes, and 22 tuples of 5, 6, 8 and 12 arguments with the extremum in every position; '
+            'non-trivial = not all arguments equal')
 
     def cases(self, tier):
         g = G9 if tier == 'quick' else G15
@@ -588,6 +794,10 @@ class MinMaxFamily(C15Family):
                 for t in ([R(1), C(2, 0)], [C(1, 0), C(2, 0)], [R(1), C(0, 1)], [C(1, 1), C(1, -1)],
                           [R(3), R(1), C(2, 0)], [R(-0.0), R(0.0)], [R(0.0), R(-0.0)]):
                     yield (table, fname, t)
+                for t in itertools.product(MINMAX_EXTREME, repeat=2):
+                    yield (table, fname, [R(v) for v in t])
+                for t in MINMAX_LONG:
+                    yield (table, fname, [R(v) for v in t])
 
     def check(self, case):
         table, fname, args = case
@@ -805,8 +1015,13 @@ SPECIMENS = {
     'm32': [[1.0, 2.0], [3.0, 4.0], [5.0, 6.0]],
     'm33': [[2.0, 0.0, 1.0], [1.0, 3.0, 2.0], [1.0, 1.0, 1.0]],
     't222': [[[1.0, 2.0], [3.0, 4.0]], [[5.0, 6.0], [7.0, 8.0]]],
+    # row and column matrices holding three numbers (NOT 3-vectors), a tensor with a unit axis
+    'm13': [[1.0, 2.0, 3.0]],
+    'm31': [[1.0], [2.0], [3.0]],
+    't123': [[[1.0, 2.0, 3.0], [4.0, 5.0, 6.0]]],
+    't131': [[[1.0], [2.0], [3.0]]],
 }
-ARRAY_SPECIMENS = ['v2', 'v3', 'w3', 'v4', 'm22', 'c22', 'm23', 'm32', 'm33', 't222']
+ARRAY_SPECIMENS = ['v2', 'v3', 'w3', 'v4', 'm22', 'c22', 'm23', 'm32', 'm33', 't222', 'm13', 'm31', 't123']
 
 
 def enc_spec(k):
@@ -816,8 +1031,8 @@ def enc_spec(k):
 
 class WrongShapes(C15Family):
     name = 'wrong_shapes'
-    rule = ('both the formula and the matrix table: every unary scalar function x 10 array specimens (vectors of '
-            'length 2,3,4, real/complex 2x2, 2x3, 3x2, 3x3, 2x2x2) must raise a student-facing error; arctan2, '
+    rule = ('both the formula and the matrix table: every unary scalar function x 13 array specimens (vectors of '
+            'length 2,3,4, real/complex 2x2, 2x3, 3x2, 3x3, 2x2x2, 1x3, 3x1, 1x2x3) must raise a student-facing error; arctan2, '
             'kronecker, min, max with an array in any position likewise; det/trace x non-square/vector/scalar/tensor, '
             'cross x every pair of specimens that is not (vec3, vec3), abs(matrix) likewise; re/im/conj/norm/trans.. '
             'on every specimen return the elementwise / textbook value; non-trivial = all except the open '
@@ -842,7 +1057,7 @@ class WrongShapes(C15Family):
             for fname in funcs:
                 for k in ARRAY_SPECIMENS:
                     yield (table, fname, [enc_spec(k)], 'arrayfunc')
-        keys = ['s', 'v2', 'v3', 'w3', 'v4', 'm22', 'm33', 'm32']
+        keys = ['s', 'v2', 'v3', 'w3', 'v4', 'm22', 'm33', 'm32', 'm13', 'm31', 't131']
         for ka in keys:
             for kb in keys:
                 yield ('matrix', 'cross', [enc_spec(ka), enc_spec(kb)], 'cross')
@@ -877,12 +1092,12 @@ class WrongShapes(C15Family):
 
 
 NATURAL = {'det': 'm22', 'trace': 'm22', 'trans': 'm22', 'ctrans': 'm22', 'adj': 'm22', 'norm': 'v3', 'cross': 'v3'}
-ARITY_OK = {'arctan2': (2,), 'kronecker': (2,), 'cross': (2,), 'min': (2, 3, 4), 'max': (2, 3, 4)}
+ARITY_OK = {'arctan2': (2,), 'kronecker': (2,), 'cross': (2,), 'min': (2, 3, 4, 5, 6, 9), 'max': (2, 3, 4, 5, 6, 9)}
 
 
 class Arity(C15Family):
     name = 'wrong_arity'
-    rule = ('every function of the formula and of the matrix table called with 0, 1, 2, 3 and 4 arguments (scalars '
+    rule = ('every function of the formula and of the matrix table called with 0, 1, 2, 3 and 4 (min, max, arctan2, cross: also 5, 6, 9) arguments (scalars '
             '0.5, or the function\'s natural array argument, or that followed by 2.0s as in norm(v, 2)); with an inadmissible count a student-facing error '
             'must be raised, with an admissible count no argument-count error; non-trivial = inadmissible counts')
 
@@ -892,7 +1107,7 @@ class Arity(C15Family):
             if table == 'matrix':
                 names = sorted(set(names) | set(ref.DOCUMENTED_MATRIX_EXTRA))
             for fname in names:
-                for n in range(5):
+                for n in (0, 1, 2, 3, 4) + ((5, 6, 9) if fname in ('min', 'max', 'arctan2', 'cross') else ()):
                     yield (table, fname, n, 'scalar')
                     if fname in NATURAL and table == 'matrix' and n > 0:
                         yield (table, fname, n, 'natural')
@@ -934,7 +1149,7 @@ class Arity(C15Family):
 
 class OneElementArrays(C15Family):
     name = 'one_element_arrays'
-    rule = ('boundary of the shape rules: the one-element arrays [x] and [[x]] given to every unary scalar function '
+    rule = ('boundary of the shape rules: the one-element arrays [x], [[x]], [[[x]]] and the 0-d array given to every unary scalar function '
             'and to arctan2/kronecker/min/max in both tables -- either a student-facing error (wrong shape) or the '
             'NUMBER f(x) (if the library treats them as numbers), never an array; x from {0.5, -2, 1+2i}; '
             'non-trivial = all')
@@ -948,10 +1163,14 @@ class OneElementArrays(C15Family):
                 for x in self.XS:
                     for wrap in (1, 2):
                         yield (table, fname, [enc_arr([x] if wrap == 1 else [[x]])])
+                    yield (table, fname, [Z0(x)])                   # the 0-d array MathArray(x)
+                    yield (table, fname, [enc_arr([[[x]]])])        # 1x1x1
             for fname in ('arctan2', 'kronecker', 'min', 'max'):
                 for x in self.XS[:2]:
                     yield (table, fname, [enc_arr([x]), R(1.0)])
                     yield (table, fname, [R(1.0), enc_arr([[x]])])
+                    yield (table, fname, [Z0(x), R(1.0)])
+                    yield (table, fname, [enc_arr([[[x]]]), enc_arr([x])])
 
     def check(self, case):
         table, fname, args = case[:3]
@@ -1009,6 +1228,419 @@ class ScalarLike(C15Family):
                                 scalar_input=not isinstance(vals[0], list))
 
 
+# ---- further dimensions: argument TYPE, array DTYPE, magnitudes inside arrays, other tables, call histories,
+# ---- the matrix grader end to end
+
+def expect_nary(fname, vals):
+    """Expectation for arctan2 / kronecker / min / max on python numbers (the rules of the pair families above)"""
+    cplx = any(isinstance(v, complex) for v in vals)
+    if fname == 'kronecker':
+        want = ref.ref_kronecker(vals[0], vals[1])
+        return ref.Expectation('value', lambda v: None if complex(v) == want else
+                               'kronecker%r = %r, expected %r' % (tuple(vals), v, want))
+    if fname == 'arctan2':
+        x, y = vals
+        if cplx and (complex(x).imag != 0 or complex(y).imag != 0):
+            return ref.Expectation('error', why='arctan2 of non-real arguments')
+        want = ref.ref_arctan2(complex(x).real, complex(y).real)
+        if want is None:
+            return ref.Expectation('error', why='arctan2(0, 0) is undefined')
+        return ref.Expectation('either' if cplx else 'value', lambda v: None if abs(complex(v) - want) <= 1e-12 else
+                               'arctan2(x=%r, y=%r) = %r; the angle of the point (x, y) is %r' % (x, y, v, want))
+    f = ref.ref_min if fname == 'min' else ref.ref_max
+    if cplx and any(complex(v).imag != 0 for v in vals):
+        return ref.Expectation('error', why='min/max of non-real numbers')
+    want = f([complex(v).real for v in vals])
+    return ref.Expectation('either' if cplx else 'value', lambda v: None if complex(v) == want else
+                           '%s%r = %r, expected %r' % (fname, tuple(vals), v, want))
+
+
+class TypedArguments(C15Family):
+    name = 'integer_typed_arguments'
+    rule = ('the TYPE of a number is a dimension of its own.  The evaluator turns every numpy scalar into the builtin '
+            'type, so a function receives a python float, a python complex, or a python INT: the value of kronecker, '
+            'the trace of an integer matrix, a sampled / author-given np.int64.  Every unary scalar function of the '
+            'formula and matrix tables x the integers {0, 1, -1, 2, -3, 10} handed over as np.int64 variables '
+            '(arriving as python ints); f(kronecker(a, b)) for the ints 0 and 1; f(trace(M)) for integer matrices M '
+            'with trace 2 and -3; arctan2/kronecker/min/max on all ordered pairs of 4 ints and 3 floats.  The '
+            'expectation is that of the same mathematical value; non-trivial as in the unary grid')
+    I64 = [0, 1, -1, 2, -3, 10]
+    PAIR = [NP('i64', 1), NP('i64', -2), NP('i64', 0), NP('i64', 3), R(1.0), R(-2.0), R(0.5)]
+    TRACES = {2: [[1, 5], [7, 1]], -3: [[-1, 2], [0, -2]]}
+
+    def cases(self, tier):
+        pts = [NP('i64', x) for x in self.I64]
+        for table in ('formula', 'matrix'):
+            for fname in ref.UNARY_SCALAR:
+                for pt in pts:
+                    yield (table, fname, [pt])
+                for k in (0, 1):
+                    yield (table, fname, [R(1.0), R(float(k))], 'of-kronecker')
+                if table == 'matrix':
+                    for t in sorted(self.TRACES):
+                        yield (table, fname, [enc_int_arr(self.TRACES[t])], 'of-trace')
+            for fname in ('arctan2', 'kronecker', 'min', 'max'):
+                for a in self.PAIR:
+                    for b in self.PAIR:
+                        yield (table, fname, [a, b])
+
+    def describe(self, case):
+        d = C15Family.describe(self, case)
+        d['types'] = [a[1] if a[0] == 'n' else 'python' for a in case[2]]
+        if len(case) > 3 and case[3] == 'of-kronecker':
+            d['call'] = '%s(kronecker(%s, %s))' % (case[1], show(case[2][0]), show(case[2][1]))
+        elif len(case) > 3:
+            d['call'] = '%s(trace(%s))  [integer dtype]' % (case[1], show(case[2][0]))
+        return d
+
+    def check(self, case):
+        table, fname, args = case[:3]
+        env = self.env
+        if len(case) > 3 and case[3] == 'of-kronecker':
+            a, b = dec(args[0]), dec(args[1])
+            k = 1.0 if a == b else 0.0
+            out, bad = env.run('%s(kronecker(a, b))' % fname, {'a': a, 'b': b}, env.functions[table])
+            return judge_scalar(env, fname, out, bad, ref.expect_scalar(fname, k), 'typed[int-of-kronecker]', 'real')
+        if len(case) > 3:
+            m = dec(args[0])
+            out, bad = env.run('%s(trace(a))' % fname, {'a': env.to_lib(args[0])}, env.functions[table])
+            return judge_scalar(env, fname, out, bad, ref.expect_scalar(fname, float(ref.trace(m))),
+                                'typed[int-of-trace]', 'real')
+        vals = [dec(a) for a in args]
+        kinds = '+'.join(a[1] if a[0] == 'n' else 'float' for a in args)
+        out, bad = env.call(table, fname, args)
+        if len(vals) == 1:
+            exp = ref.expect_scalar(fname, vals[0])
+        else:
+            exp = expect_nary(fname, vals)
+        return judge_scalar(env, fname, out, bad, exp, 'typed[%s]' % kinds, 'real')
+
+
+REDUCED_REALS = [0.0, -0.0, 0.5, -0.5, 1.0, -1.0, 2.0, -2.0, 1e-320, 1e200, -1e200, 1000.0, -1000.0, PI / 2]
+REDUCED_COMPLEX = [(0.0, 1.0), (0.0, -1.0), (2.0 / 3, 2.0 / 3), (-4.0 / 3, 2.0), (0.0, 0.5), (2.0, 1e-9), (2.0, -1e-9),
+                   (-2.0, 0.0), (0.5, -0.0), (1000.0, 1.0), (1e-300, 1e-300), (0.0, PI / 2)]
+
+
+class OtherTablesGrid(UnaryGrid):
+    """the unary grid through the tables of further graders (NumericalGrader, a MatrixGrader with user entries)"""
+    def __init__(self, table):
+        UnaryGrid.__init__(self, table)
+        self.name = 'unary_%s_table' % table.replace('+', '_')
+        self.rule = ('every unary scalar function of the table of the %s grader x %d reals (real-typed) and %d complex '
+                     'points (poles, both sides of cuts, huge, subnormal), thorough: the full scalar grid; the same '
+                     'oracle as the unary grid; arctan2/kronecker/min/max on all pairs of the 9-value grid'
+                     % (table, len(REDUCED_REALS), len(REDUCED_COMPLEX)))
+
+    def cases(self, tier):
+        if tier == 'thorough':
+            pts = scalar_points(tier)
+        else:
+            pts = [R(x) for x in REDUCED_REALS] + [C(x, y) for x, y in REDUCED_COMPLEX]
+        for fname in ref.UNARY_SCALAR:
+            for p in pts:
+                yield (self.table, fname, [p])
+        for fname in ('arctan2', 'kronecker', 'min', 'max'):
+            for x in G9:
+                for y in G9:
+                    yield (self.table, fname, [R(x), R(y)])
+
+    def check(self, case):
+        table, fname, args = case
+        if len(args) == 1:
+            return UnaryGrid.check(self, case)
+        out, bad = self.env.call(table, fname, args)
+        return judge_scalar(self.env, fname, out, bad, expect_nary(fname, [dec(a) for a in args]),
+                            'binary[%s]' % table, ztype_of(args))
+
+
+def boundary_neighbours():
+    """reals within rounding distance of the boundaries that matter to some function: integers (floor, ceil), +-1
+    (domains of arcsin..arccoth, poles of arctanh / arccoth), 0, half-integers, the largest non-integers"""
+    na = math.nextafter
+    inf = math.inf
+    pts = []
+    for c in (1.0, 2.0, 0.5, 3.0, 1e15):
+        pts += [na(c, -inf), na(c, inf), c - abs(c) * 1e-15, c + abs(c) * 1e-15, c - abs(c) * 1e-12, c + abs(c) * 1e-12]
+    pts += [5e-324, 2.0 ** 52 + 0.5, 2.0 ** 52 - 0.5, 2.0 ** 53 - 1, na(PI / 2, 0.0), na(PI, 4.0), 0.49999999999999994]
+    out = []
+    for v in pts:
+        out += [v, -v]
+    return out
+
+
+class BoundaryNeighbours(UnaryGrid):
+    """the unary grid on reals within rounding distance of a boundary"""
+    def __init__(self):
+        UnaryGrid.__init__(self, 'formula')
+        self.name = 'unary_boundary_neighbours'
+        self.rule = ('every unary scalar function (formula table; abs also matrix table) x 74 real-typed points within '
+                     'rounding distance of a boundary: the neighbours (one ulp, 1e-15, 1e-12 relative) on both sides of '
+                     '+-1, +-2, +-0.5, +-3, +-1e15, the smallest subnormals, 2^52 +- 0.5, 2^53 - 1, the neighbours of '
+                     'pi/2 and pi; the same oracle as the unary grid (floor and ceil are exact)')
+
+    def cases(self, tier):
+        pts = [R(v) for v in boundary_neighbours()]
+        for fname in ref.UNARY_SCALAR:
+            for p in pts:
+                yield ('formula', fname, [p])
+        for p in pts:
+            yield ('matrix', 'abs', [p])
+
+
+class ArrayDtypes(C15Family):
+    name = 'array_dtypes'
+    rule = ('the DTYPE of an array is a dimension of its own: arrays written by an author (MathArray([[1, 2], [3, 4]]), '
+            'the Pauli matrices) have an INTEGER dtype, or a complex dtype with all entries real.  Every integer-dtype '
+            'array of shape 2 / 3 / 2x2 over {-2, 0, 1} and every complex-dtype array of shape 2 / 2x2 over {0, 1} x '
+            'the ten array functions of the matrix table; cross on every (integer 3-vector over {-2, 0, 1}) x (6 '
+            'integer / float / complex vectors) in both orders; same references as the array families; '
+            'non-trivial = value (or mandatory error) demanded')
+    OTHERS = [('I', [1, 0, 0]), ('I', [1, -2, 3]), ('I', [0, 0, 0]), ('A', [0.5, 1.0, -2.0]), ('A', [1j, 0.0, 2.0]),
+              ('A', [0.3, 0.3, 0.3])]
+
+    def cases(self, tier):
+        for shape in ((2,), (3,), (2, 2)):
+            for a in all_arrays(shape, [-2, 0, 1]):
+                e = enc_int_arr(a)
+                for fname in ARRAY_FUNCS:
+                    yield ('matrix', fname, [e])
+        for shape in ((2,), (2, 2)):
+            for a in all_arrays(shape, [complex(0, 0), complex(1, 0)]):
+                e = enc_arr(a)
+                for fname in ARRAY_FUNCS:
+                    yield ('matrix', fname, [e])
+        for a in all_arrays((3,), [-2, 0, 1]):
+            for kind, b in self.OTHERS:
+                eb = enc_int_arr(b) if kind == 'I' else enc_arr(b)
+                yield ('matrix', 'cross', [enc_int_arr(a), eb])
+                yield ('matrix', 'cross', [eb, enc_int_arr(a)])
+        # integer arrays into the formula table's re / im / conj / abs
+        for a in all_arrays((2,), [-2, 0, 1]):
+            for fname in ('re', 'im', 'conj', 'abs'):
+                yield ('formula', fname, [enc_int_arr(a)])
+
+    def check(self, case):
+        table, fname, args = case
+        vals = [dec(a) for a in args]
+        out, bad = self.env.call(table, fname, args)
+        tag = 'dtype[%s]' % '+'.join('int' if a[0] == 'I' else ('complex' if a[3] is not None else 'float') for a in args)
+        if fname == 'cross':
+            want = ref.cross(vals[0], vals[1])
+            res = judge_array_func(self.env, fname, out, bad, ('array', want, ''), tag, 'vec3xvec3')
+            if res.violation is None:
+                res.nontrivial = any(complex(x) != 0 for x in want)
+            return res
+        return judge_array_func(self.env, fname, out, bad, expect_array_func(fname, vals[0], table), tag,
+                                shapetag(ref.shape_of(vals[0])))
+
+
+class ArrayMagnitudes(C15Family):
+    name = 'array_magnitudes'
+    rule = ('large and tiny magnitudes INSIDE arrays: norm, abs, re, conj on every 2-vector over {m, -m, 0, 1, m*i} and '
+            'every 3-vector over {m, 0, -1}; norm, det, trace on every 2x2 matrix over {m, 0, -1}; m in {1e150, 1e-150} '
+            '(their squares are representable).  norm and abs are compared RELATIVELY (1e-9 of the Frobenius norm '
+            'computed with scaling), so a norm that underflows to 0 is seen; non-trivial = all')
+    MAGS = [1e150, 1e-150]
+    # These magnitudes found a genuine defect (repaired, see KNOWN_FINDINGS.json): norm / abs of an ARRAY squared the
+    # entries (np.linalg.norm): norm([1e-200, 0]) was 0.0, abs([3e-320, 4e-320]) was 0.0, norm([1e200, 1e200]) raised
+    # CalcOverflowError although 1.4e200 is representable (ec51f5f had repaired this for NUMBERS only).
+    PENDING_MAGS = [1e200, 1e-200, 1e-320]
+    INCLUDE_PENDING = True
+
+    def cases(self, tier):
+        for m in self.MAGS + (self.PENDING_MAGS if self.INCLUDE_PENDING else []):
+            vecs = list(all_arrays((2,), [m, -m, 0.0, 1.0, complex(0, m)])) + list(all_arrays((3,), [m, 0.0, -1.0]))
+            for a in vecs:
+                for fname in ('norm', 'abs', 're', 'conj'):
+                    yield ('matrix', fname, [enc_arr(a)])
+            if m in self.PENDING_MAGS:
+                continue        # m*m is not representable: det has no finite value
+            for a in all_arrays((2, 2), [m, 0.0, -1.0]):
+                for fname in ('norm', 'det', 'trace'):
+                    yield ('matrix', fname, [enc_arr(a)])
+
+    def check(self, case):
+        table, fname, args = case
+        a = dec(args[0])
+        env = self.env
+        out, bad = env.call(table, fname, args)
+        st = shapetag(ref.shape_of(a))
+        if fname in ('norm', 'abs'):
+            want = ref.frobenius(a)
+            exp = ref.Expectation('value', lambda v: None if abs(complex(v) - want) <= 1e-9 * want else
+                                  '%s = %r, the Frobenius norm is %r' % (fname, v, want))
+            res = judge_scalar(env, fname, out, bad, exp, 'magnitude', st)
+            if res.violation is not None and res.outcome in ('wrong-value', 'error-in-domain'):
+                # one site (the Frobenius norm squares the entries), whatever the symptom: 0 or an overflow error
+                res.violation['sig'] = 'matrix-table:abs-norm:extreme-magnitude-array'
+            return res
+        return judge_array_func(env, fname, out, bad, expect_array_func(fname, a, table), 'magnitude', st)
+
+
+class CrossSmall(CrossFamily):
+    """cross on an explicit list of vectors (complex entries in the quick tier)"""
+    VECS = [[1.0, 2.0, 3.0], [0.0, 1j, -2.0], [1j, 1j, 0.0], [complex(1, 2), 0.0, -1.0], [-2.0, 1.0, 1j],
+            [0.0, 0.0, 1.0], [complex(0, -1), complex(2, 1), 0.5]]
+
+    def __init__(self):
+        self.name = 'cross_complex_small'
+        self.tiers = ('quick', 'thorough')
+        self.rule = ('cross(a, b) on every ordered pair of 7 vectors with complex entries (no conjugation in the '
+                     'textbook product); reference: Levi-Civita formula; non-trivial = a x b != 0')
+
+    def cases(self, tier):
+        vecs = [enc_arr(v) for v in self.VECS]
+        for a in vecs:
+            for b in vecs:
+                yield ('matrix', 'cross', [a, b])
+
+
+def lit_num(x):
+    x = complex(x)
+    if x.imag != 0:
+        return '%r%s%r*i' % (x.real, '-' if x.imag < 0 else '+', abs(x.imag))
+    return '%r' % x.real
+
+
+def lit(v):
+    """python number / nested list -> the text a student types"""
+    if isinstance(v, list):
+        return '[%s]' % ', '.join(lit(x) for x in v)
+    return lit_num(v)
+
+
+class MatrixGraderEndToEnd(C15Family):
+    name = 'matrix_grader_end_to_end'
+    rule = ('the array functions typed by a student with LITERAL arrays and graded by a real MatrixGrader: 10 array '
+            'functions x 9 literals (number, vectors, real/complex 2x2, 2x3, 3x3, one-entry arrays; quick: 5 of them) and cross on 5 '
+            'pairs; the evaluated value must be the textbook one, MatrixGrader(answers=<that value>) must grade the '
+            'input correct, with the answer moved by 1% incorrect, and where an error is due the grader must raise '
+            'a student-facing error; non-trivial = value or mandatory error')
+    LITS = [2.0, [3.0, -4.0], [1.0, 2.0, 2.0], [1j, 2.0, -1.0], [[1.0, 2.0], [3.0, 4.0]],
+            [[1j, 2.0], [3.0, complex(4, -1)]], [[1.0, 2.0, 3.0], [4.0, 5.0, 6.0]],
+            [[2.0, 0.0, 1.0], [1.0, 3.0, 2.0], [1.0, 1.0, 1.5]], [[-0.5]]]
+    CROSS = [([1.0, 2.0, 3.0], [4.0, 5.0, 6.0]), ([0.0, 1.0, 0.0], [1.0, 0.0, 0.0]), ([1j, 0.0, 2.0], [1.0, 1j, 0.0]),
+             ([1.0, 2.0], [3.0, 4.0]), ([[1.0, 2.0, 3.0]], [4.0, 5.0, 6.0])]
+
+    QUICK_LITS = (1, 3, 5, 6, 7)
+
+    def cases(self, tier):
+        for fname in ARRAY_FUNCS:
+            for k in range(len(self.LITS)):
+                if tier == 'quick' and k not in self.QUICK_LITS:
+                    continue
+                yield ('matrix', fname, k)
+        for k in range(len(self.CROSS)):
+            yield ('matrix', 'cross', k)
+
+    def text(self, case):
+        _, fname, k = case
+        if fname == 'cross':
+            return 'cross(%s, %s)' % (lit(self.CROSS[k][0]), lit(self.CROSS[k][1]))
+        return '%s(%s)' % (fname, lit(self.LITS[k]))
+
+    def describe(self, case):
+        return {'input': self.text(case)}
+
+    def check(self, case):
+        _, fname, k = case
+        env = self.env
+        text = self.text(case)
+        out, bad = env.run(text, env.constants['matrix'], env.functions['matrix'])
+        if fname == 'cross':
+            a, b = self.CROSS[k]
+            if ref.shape_of(a) == (3,) and ref.shape_of(b) == (3,):
+                expectation = ('array', ref.cross(a, b), '')
+            else:
+                expectation = ('error', None, 'cross needs two 3-vectors')
+            st = 'pair'
+        else:
+            a = self.LITS[k]
+            expectation = expect_array_func(fname, a, 'matrix')
+            st = shapetag(ref.shape_of(a))
+        res = judge_array_func(env, fname, out, bad, expectation, 'literal', st, scalar_input=not isinstance(a, list))
+        if res.violation is not None:
+            return res
+        if out[0] == 'err':
+            try:
+                got = env.MatrixGrader(answers='1', max_array_dim=2)(None, text)
+                return Result('grader-no-error', True,
+                              viol('matrixgrader:%s:graded-where-evaluator-raises' % fname,
+                                   'MatrixGrader graded %r although evaluating it raises' % text,
+                                   'StudentFacingError', got), 2)
+            except env.SFE:
+                return Result(res.outcome + '/grader-raises', res.nontrivial, None, 2)
+            except Exception as e:
+                return Result('grader-raw', True, viol('matrixgrader:%s:raw-%s' % (fname, errname(e)),
+                                                       'MatrixGrader raised a non-student-facing error', None,
+                                                       '%s: %s' % (errname(e), e)), 2)
+        v = out[1]
+        if isinstance(v, np.ndarray):
+            nested = to_nested(v)
+            size = max([abs(complex(x)) for x in ref.flat(nested)] + [1.0])
+            moved = _nest([complex(x) + (0.01 * size if n == 0 else 0) for n, x in enumerate(ref.flat(nested))],
+                          list(v.shape))
+        else:
+            nested = complex(v)
+            size = max(1.0, abs(nested))
+            moved = nested + 0.01 * size
+        verdicts = []
+        calls = 1
+        for answer in (nested, moved):
+            try:
+                g = env.MatrixGrader(answers=lit(answer), max_array_dim=2, tolerance=1e-9 * size)
+                verdicts.append(g(None, text)['ok'])
+            except Exception as e:
+                verdicts.append('%s: %s' % (errname(e), e))
+            calls += 1
+        if verdicts != [True, False]:
+            return Result('grader-disagrees', True,
+                          viol('matrixgrader:%s:verdict-disagrees-with-evaluator' % fname,
+                               'MatrixGrader verdicts for answer = value / value moved by 1%% are %r' % verdicts,
+                               [True, False], verdicts), calls)
+        return Result(res.outcome + '/graded', res.nontrivial, None, calls)
+
+
+def _larger_specimens():
+    """structured arrays just beyond the exhaustively enumerated sizes (4x4 binary in thorough, 3x3 in quick)"""
+    out = []
+    for n in (4, 5, 6):
+        ident = [[1.0 if i == j else 0.0 for j in range(n)] for i in range(n)]
+        cyc = [[1.0 if j == (i + 1) % n else 0.0 for j in range(n)] for i in range(n)]       # det = (-1)^(n-1)
+        upper = [[float(i + j + 1) if j >= i else 0.0 for j in range(n)] for i in range(n)]
+        full = [[float(((3 * i + 5 * j + i * j) % 7) - 3) for j in range(n)] for i in range(n)]
+        cplx = [[complex((i + 2 * j) % 3 - 1, (2 * i + j) % 3 - 1) for j in range(n)] for i in range(n)]
+        out += [ident, cyc, upper, full, cplx]
+    out += [[[float(i * 5 + j) for j in range(5)] for i in range(2)],           # 2x5
+            [[complex(i, j) for j in range(2)] for i in range(5)],              # 5x2
+            [1.0, -2.0, 2.0, 0.0, 4.0], [float(k % 3 - 1) for k in range(10)], [complex(k, -k) for k in range(7)]]
+    return out
+
+
+class LargerArrays(C15Family):
+    name = 'arrays_beyond_the_enumerated_sizes'
+    rule = ('sizes just beyond the exhaustive bound: identity, cyclic permutation, upper triangular, a full integer-valued '
+            'and a complex matrix of size 4x4, 5x5 and 6x6, a 2x5 and a 5x2 matrix, vectors of length 5, 7 and 10 x '
+            'the ten array functions of the matrix table (Leibniz determinant over all n! permutations); '
+            'non-trivial = value (or mandatory error) demanded')
+
+    def cases(self, tier):
+        for k in range(len(_larger_specimens())):
+            for fname in ARRAY_FUNCS:
+                yield ('matrix', fname, k)
+
+    def describe(self, case):
+        a = _larger_specimens()[case[2]]
+        return {'call': '%s(<array of shape %s>)' % (case[1], 'x'.join(map(str, ref.shape_of(a)))), 'array': repr(a)}
+
+    def check(self, case):
+        table, fname, k = case
+        a = _larger_specimens()[k]
+        out, bad = self.env.call(table, fname, [enc_arr(a)])
+        return judge_array_func(self.env, fname, out, bad, expect_array_func(fname, a, table), 'larger',
+                                shapetag(ref.shape_of(a)))
+
+
 def families(tier):
     fams = [
         TablesAndConstants(),
@@ -1028,9 +1660,18 @@ def families(tier):
         Arity(),
         ScalarLike(),
         OneElementArrays(),
+        TypedArguments(),
+        OtherTablesGrid('numerical'),
+        BoundaryNeighbours(),
+        ArrayDtypes(),
+        ArrayMagnitudes(),
+        CrossSmall(),
+        LargerArrays(),
+        MatrixGraderEndToEnd(),
     ]
     if tier == 'thorough':
         fams += [
+            OtherTablesGrid('matrix+user'),
             ArrayFuncs('matrices_3x3_real_pal3', [(3, 3)], PAL3R, tiers=('thorough',),
                        funcs=['det', 'trace', 'trans', 'norm']),
             ArrayFuncs('matrices_3x3_complex_pal3', [(3, 3)], PAL3C, tiers=('thorough',),
